@@ -626,6 +626,11 @@ class ClientSSM(SSM):
     def segmented_confirmation(self, apdu):
         if _debug: ClientSSM._debug("segmented_confirmation %r", apdu)
 
+        # a late or duplicate ack of the request's segments
+        if (apdu.apduType == SegmentAckPDU.pduType):
+            if _debug: ClientSSM._debug("    - segment ack ignored")
+            return
+
         # the only messages we should be getting are complex acks
         if (apdu.apduType != ComplexAckPDU.pduType):
             if _debug: ClientSSM._debug("    - complex ack required")
